@@ -30,6 +30,7 @@ func continuesText(t RTok) bool {
 // insertion, and no line break was introduced at a restricted production.
 // Equal token sequences with equal statement boundaries are the same program.
 func ZZH1Behaviour() {
+	priorJob()
 	g, s, prog := GenText(sym.Param("trivia", 0), 1, false)
 	cfg := sym.Choose("config", 4)
 	pretty := cfg > 0
